@@ -172,6 +172,7 @@ func zzHistory(kind, steps int) {
 			}
 			other = s.Copy()
 			og = g.clone()
+			zzvAssert("copy-shares-no-memory-with-original", zzvDisjoint(s, other))
 		case 4:
 			s.Clear()
 			g = &zzGhost{}
@@ -192,6 +193,7 @@ func zzHistory(kind, steps int) {
 				g.add(pg.idx[j], pg.w[j])
 			}
 			zzvAssert("merge-argument-unchanged", zzvAnd(o.TotalCount() == pg.total(), ZZInv(o)))
+			zzvAssert("receiver-and-argument-share-no-memory", zzvDisjoint(s, o))
 		case 6:
 			if s.Reweight(2) != nil {
 				zzvAssert("reweight-ok", false)
@@ -209,6 +211,7 @@ func zzHistory(kind, steps int) {
 	zzObserveAll(s, g, kind, "end")
 	if other != nil {
 		zzObserveAll(other, og, kind, "other-line")
+		zzvAssert("lines-share-no-memory-at-the-end", zzvDisjoint(s, other))
 	}
 }
 
